@@ -334,7 +334,7 @@ Proof.
   destruct (opposites c2) eqn:Eopp.
   { injection H as <- <-. destruct (opposites_witness c2 Hprop Eopp) as [x [Hx1 Hx2]].
     split; [exact Hidx|]. split; [apply grows_refl|]. split.
-    - intros _ a v _. rewrite <- Hc2. symmetry. eapply ev_complement; eauto.
+    - intros _ a v _. rewrite <- Hc2. symmetry. apply (ev_complement kd v c2 x); assumption.
     - intros _ ->. left. split; [reflexivity|]. split; [reflexivity|]. intro v.
       specialize (Hc2 v). simpl in Hc2. rewrite <- Hc2. apply (ev_complement KDisj v c2 x); assumption. }
   (* remaining: single-child collapse or creation *)
